@@ -760,6 +760,18 @@ class Interp:
             cells[r[1]] = self.set_path(cells[r[1]], list(r[2]), v, st)
             st['#cells'] = cells
 
+    def _materialise_refs(self, v, st, depth=0):
+        """a shared reference into this frame that is returned (`&self.field` out of a closure) becomes a reference to a
+        snapshot of the value: the frame is gone after the return"""
+        if isinstance(v, tuple) and v and v[0] == 'ref' and len(v) == 3 and depth < 4:
+            try:
+                return ('refval', self.deref(v, st), ())
+            except (Unsupported, Undecided, KeyError):
+                return v
+        if isinstance(v, tuple) and v and v[0] == 'enum' and depth < 4:
+            return ('enum', v[1], tuple(self._materialise_refs(x, st, depth + 1) for x in v[2]))
+        return v
+
     def run_with_cells(self, path, args, mut_params):
         cells = {}
         args = list(args)
@@ -798,6 +810,7 @@ class Interp:
                     rv = st.get(0, ())
                     if isinstance(rv, Cmp):
                         rv = Cmp(rv.op, None, None, rv.res)     # operands are locals of this frame
+                    rv = self._materialise_refs(rv, st)
                     results.append(Outcome(rv, st['#cells'], None, forked, bool(st.get('#cmpfork'))))
                     break
                 if k == 'unreachable':
@@ -1077,3 +1090,235 @@ BUILTINS = {
     'Fn::call': h_call_closure, 'FnMut::call_mut': h_call_closure, 'FnOnce::call_once': h_call_closure,
     'Deref::deref': h_deref_identity, 'DerefMut::deref_mut': h_deref_identity, 'AsRef::as_ref': h_deref_identity,
 }
+
+
+# -------------------------------------------------------------------- Option / bool / iterator combinators
+def _call_f(I, st, f, args):
+    """value of calling closure (or fn item) f with args; Undecided when it forks"""
+    fv = _deref_arg(I, st, f)
+    while isinstance(fv, tuple) and fv and fv[0] in ('ref', 'refval', 'mref'):
+        fv = I.deref(fv, st)
+    sub = Interp(I.prog, I.handlers, I.fuel, I.max_paths)
+    sub.steps = I.steps
+    sub.depth = I.depth + 1
+    if isinstance(fv, dict) and '#closure' in fv:
+        # captured shared references point into the frame that created the closure: hand the callee snapshots of the values
+        fv = dict(fv)
+        fv['#caps'] = tuple(_snapshot_ref(I, st, c) for c in fv['#caps'])
+        cb = I.prog.bodies.get(fv['#closure'])
+        by_ref = cb is None or cb.local_ty(1).lstrip().startswith('&')      # Fn / FnMut bodies take &env, FnOnce bodies the env itself
+        outs = sub.run(fv['#closure'], [('refval', fv, ()) if by_ref else fv] + list(args))
+    elif isinstance(fv, Sym) and isinstance(fv.tag, tuple) and fv.tag[0] == 'fn' and fv.tag[1] in I.prog.bodies:
+        outs = sub.run(fv.tag[1], list(args))
+    else:
+        raise Unsupported('call of %r' % (fv,))
+    I.steps = sub.steps
+    if len(outs) != 1:
+        raise Undecided('closure forks inside a combinator')
+    return outs[0].ret
+
+
+def _snapshot_ref(I, st, c, depth=0):
+    if isinstance(c, tuple) and c and c[0] == 'ref' and len(c) == 3 and depth < 4:
+        try:
+            v = I.deref(c, st)
+        except KeyError:
+            return c
+        if isinstance(v, dict) and '#closure' in v:
+            v = dict(v)
+            v['#caps'] = tuple(_snapshot_ref(I, st, x, depth + 1) for x in v['#caps'])
+        return ('refval', v, ())
+    return c
+
+
+def _truth(v):
+    if isinstance(v, Cmp):
+        v = v.res
+    if v in (True, 1):
+        return True
+    if v in (False, 0):
+        return False
+    raise Undecided('condition inside a combinator is not decided')
+
+
+def _opt(I, st, a):
+    v = _deref_arg(I, st, a)
+    if not (isinstance(v, tuple) and v and v[0] == 'enum'):
+        raise Unsupported('Option combinator on %r' % (v,))
+    return v
+
+
+def h_then_some(I, st, a, t, b):
+    c = a[0]
+    if isinstance(c, Cmp):
+        c = c.res
+    if c in (True, 1):
+        return SOME(a[1])
+    if c in (False, 0):
+        return NONE
+    return Fork([SOME(a[1]), NONE])
+
+
+def h_then(I, st, a, t, b):
+    return SOME(_call_f(I, st, a[1], [])) if _truth(a[0]) else NONE
+
+
+def h_opt_or_else(I, st, a, t, b):
+    o = _opt(I, st, a[0])
+    return o if o[1] == 1 else _call_f(I, st, a[1], [])
+
+
+def h_opt_or(I, st, a, t, b):
+    o = _opt(I, st, a[0])
+    return o if o[1] == 1 else a[1]
+
+
+def h_opt_as_ref(I, st, a, t, b):
+    o = _opt(I, st, a[0])
+    return o if o[1] == 0 else SOME(('refval', o[2][0], ()))
+
+
+def h_opt_filter(I, st, a, t, b):
+    o = _opt(I, st, a[0])
+    if o[1] == 0:
+        return NONE
+    return o if _truth(_call_f(I, st, a[1], [('refval', o[2][0], ())])) else NONE
+
+
+def h_opt_map(I, st, a, t, b):
+    o = _opt(I, st, a[0])
+    return NONE if o[1] == 0 else SOME(_call_f(I, st, a[1], [o[2][0]]))
+
+
+def h_opt_map_or(I, st, a, t, b):
+    o = _opt(I, st, a[0])
+    return a[1] if o[1] == 0 else _call_f(I, st, a[2], [o[2][0]])
+
+
+def h_opt_map_or_else(I, st, a, t, b):
+    o = _opt(I, st, a[0])
+    return _call_f(I, st, a[1], []) if o[1] == 0 else _call_f(I, st, a[2], [o[2][0]])
+
+
+def h_opt_unwrap_or(I, st, a, t, b):
+    o = _opt(I, st, a[0])
+    return a[1] if o[1] == 0 else o[2][0]
+
+
+def h_opt_unwrap_or_else(I, st, a, t, b):
+    o = _opt(I, st, a[0])
+    return _call_f(I, st, a[1], []) if o[1] == 0 else o[2][0]
+
+
+def h_opt_is_some(I, st, a, t, b):
+    return _opt(I, st, a[0])[1] == 1
+
+
+def h_opt_is_none(I, st, a, t, b):
+    return _opt(I, st, a[0])[1] == 0
+
+
+def h_opt_copied(I, st, a, t, b):
+    o = _opt(I, st, a[0])
+    return o if o[1] == 0 else SOME(_deref_arg(I, st, o[2][0]))
+
+
+def _items_of(I, st, x):
+    v = _deref_arg(I, st, x) if not (isinstance(x, dict)) else x
+    if isinstance(v, dict) and ('#iter' in v or v.get('#adt', '').endswith('Range')):
+        return _iter_items(v)
+    if isinstance(v, (tuple, list)):
+        return list(v)
+    raise Unsupported('items of %r' % (v,))
+
+
+def h_zip(I, st, a, t, b):
+    xs, ys = _items_of(I, st, a[0]), None
+    y = a[1]
+    if isinstance(y, tuple) and y and y[0] in ('ref', 'refval', 'mref'):
+        tgt = I.deref(y, st)
+        ys = [('refval', e, ()) for e in tgt] if isinstance(tgt, (tuple, list)) else _items_of(I, st, tgt)
+    else:
+        ys = _items_of(I, st, y)
+    return {'#iter': 'seq', 'items': tuple(zip(xs, ys)), 'pos': 0}
+
+
+def h_iter_map(I, st, a, t, b):
+    return {'#iter': 'seq', 'items': tuple(_call_f(I, st, a[1], [x]) for x in _items_of(I, st, a[0])), 'pos': 0}
+
+
+def h_iter_filter(I, st, a, t, b):
+    return {'#iter': 'seq', 'items': tuple(x for x in _items_of(I, st, a[0]) if _truth(_call_f(I, st, a[1], [('refval', x, ())]))), 'pos': 0}
+
+
+def h_iter_filter_map(I, st, a, t, b):
+    out = []
+    for x in _items_of(I, st, a[0]):
+        r = _call_f(I, st, a[1], [x])
+        if isinstance(r, tuple) and r and r[0] == 'enum' and r[1] == 1:
+            out.append(r[2][0])
+        elif not (isinstance(r, tuple) and r and r[0] == 'enum'):
+            raise Unsupported('filter_map closure returned %r' % (r,))
+    return {'#iter': 'seq', 'items': tuple(out), 'pos': 0}
+
+
+def h_extend(I, st, a, t, b):
+    cur = _deref_arg(I, st, a[0])
+    if not isinstance(cur, (tuple, list)):
+        raise Unsupported('extend of %r' % (cur,))
+    I._write_ref(st, a[0], tuple(cur) + tuple(_items_of(I, st, a[1])))
+    return ()
+
+
+def h_iter_all(I, st, a, t, b):
+    for x in _items_of(I, st, a[0]):
+        if not _truth(_call_f(I, st, a[1], [x])):
+            return False
+    return True
+
+
+def h_iter_any(I, st, a, t, b):
+    for x in _items_of(I, st, a[0]):
+        if _truth(_call_f(I, st, a[1], [x])):
+            return True
+    return False
+
+
+def h_iter_find(I, st, a, t, b):
+    for x in _items_of(I, st, a[0]):
+        if _truth(_call_f(I, st, a[1], [('refval', x, ())])):
+            return SOME(x)
+    return NONE
+
+
+def h_iter_collect(I, st, a, t, b):
+    return tuple(_items_of(I, st, a[0]))
+
+
+def h_iter_copied(I, st, a, t, b):
+    return {'#iter': 'seq', 'items': tuple(_deref_arg(I, st, x) for x in _items_of(I, st, a[0])), 'pos': 0}
+
+
+def h_array_map(I, st, a, t, b):
+    return tuple(_call_f(I, st, a[1], [x]) for x in _items_of(I, st, a[0]))
+
+
+def h_array_from_fn(I, st, a, t, b):
+    import re as _re
+    m = _re.search(r'; (\d+)\]', b.local_ty(t['dest']['local']))
+    if not m:
+        raise Unsupported('array::from_fn of unknown length')
+    return tuple(_call_f(I, st, a[0], [i]) for i in range(int(m.group(1))))
+
+
+BUILTINS.update({
+    'bool::then_some': h_then_some, 'bool::then': h_then,
+    'Option::or_else': h_opt_or_else, 'Option::or': h_opt_or, 'Option::as_ref': h_opt_as_ref, 'Option::as_deref': h_opt_as_ref,
+    'Option::filter': h_opt_filter, 'Option::map': h_opt_map, 'Option::map_or': h_opt_map_or, 'Option::map_or_else': h_opt_map_or_else,
+    'Option::unwrap_or': h_opt_unwrap_or, 'Option::unwrap_or_else': h_opt_unwrap_or_else, 'Option::is_some': h_opt_is_some,
+    'Option::is_none': h_opt_is_none, 'Option::copied': h_opt_copied, 'Option::cloned': h_opt_copied,
+    'Iterator::zip': h_zip, 'Iterator::map': h_iter_map, 'Iterator::all': h_iter_all, 'Iterator::any': h_iter_any,
+    'Iterator::find': h_iter_find, 'Iterator::collect': h_iter_collect, 'Iterator::copied': h_iter_copied, 'Iterator::cloned': h_iter_copied,
+    'array::map': h_array_map, 'array::from_fn': h_array_from_fn,
+    'Iterator::filter': h_iter_filter, 'Iterator::filter_map': h_iter_filter_map, 'Extend::extend': h_extend, 'Vec::extend': h_extend,
+})
